@@ -152,12 +152,21 @@ def run(ctx, repo, tier):
     # ------------------------------------------------------------ half sphere: filter polarity and volume selection
     hv = repo.cls(VO, "HalfRotobjVoronoi")
     hapc = hv.methods.get("_additional_points_per_cell")
-    gu = hv.find_method("_get_upper_indices")
     hgv = hv.methods.get("get_voronoi_volumes")
+    gu = hv.find_method("_get_upper_indices")
+    if gu is None and hgv is not None:
+        # the method whose result indexes the volumes:  [.. for i in self.<m>()]
+        for n in ast.walk(hgv.node):
+            if isinstance(n, ast.comprehension) and isinstance(n.iter, ast.Call) and isinstance(n.iter.func, ast.Attribute) and \
+                    isinstance(n.iter.func.value, ast.Name) and n.iter.func.value.id == "self":
+                gu = hv.find_method(n.iter.func.attr)
     if hapc is None or gu is None or hgv is None:
         raise AnalysisError("anchor vanished: HalfRotobjVoronoi helper/volume methods")
     for m in (hapc, gu, hgv):
         ctx.analysed(m)
+
+    from ..astutil import hemisphere_predicates
+    preds = hemisphere_predicates(repo)
 
     def predicate_polarity(fn_node):
         """list comprehensions filtering with q_in_upper_sphere: +1 positive, -1 negated"""
@@ -171,8 +180,8 @@ def run(ctx, repo, tier):
                         while isinstance(x, ast.UnaryOp) and isinstance(x.op, ast.Not):
                             neg = not neg
                             x = x.operand
-                        if isinstance(x, ast.Call) and isinstance(x.func, ast.Name) and x.func.id == "q_in_upper_sphere":
-                            out.append((-1 if neg else 1, src(g.iter)))
+                        if isinstance(x, ast.Call) and isinstance(x.func, ast.Name) and x.func.id in preds:
+                            out.append(((-1 if neg else 1) * preds[x.func.id], src(g.iter)))
         return out
     pa, pb = predicate_polarity(hapc.node), predicate_polarity(gu.node)
     ctx.instance("SELECT")
@@ -198,7 +207,7 @@ def run(ctx, repo, tier):
         for c in ast.walk(hgv.node):
             if isinstance(c, ast.ListComp) and len(c.generators) == 1:
                 g = c.generators[0]
-                it_ok = isinstance(g.iter, ast.Call) and src(g.iter.func) == "self._get_upper_indices" and not g.iter.args
+                it_ok = isinstance(g.iter, ast.Call) and src(g.iter.func) == "self." + gu.name and not g.iter.args
                 if isinstance(c.elt, ast.Subscript) and isinstance(c.elt.value, ast.Name) and c.elt.value.id == vname and \
                         isinstance(g.target, ast.Name) and isinstance(c.elt.slice, ast.Name) and c.elt.slice.id == g.target.id and \
                         it_ok and not g.ifs:
